@@ -74,6 +74,8 @@ pub struct GenCfg {
     pub p_hide_count: u32,
     /// when > 0: a reference key concatenates this many (up to +4) references (long substituted values)
     pub fk_refs_min: usize,
+    /// never write `time_length: full | long` (known finding D23: those lengths panic at run time)
+    pub fmt_no_zoned_time: bool,
 }
 
 impl Default for GenCfg {
@@ -108,6 +110,7 @@ impl Default for GenCfg {
             p_count_reuse: 50,
             p_hide_count: 33,
             fk_refs_min: 0,
+            fmt_no_zoned_time: false,
         }
     }
 }
@@ -172,9 +175,11 @@ impl<'t> Gen<'t> {
         } else {
             None
         };
-        // one formatter family per variable name keeps the generated accessors type-correct
+        // one input type per variable name keeps the generated accessors type-correct; `number` and `currency`
+        // take the same input, so one variable may carry both
         Piece::Var {
             name: match &fmt {
+                Some(f) if f.name == "number" || f.name == "currency" => format!("{}_num", name),
                 Some(f) => format!("{}_{}", name, f.name),
                 None => name.to_string(),
             },
@@ -196,7 +201,11 @@ impl<'t> Gen<'t> {
         let mut args = vec![];
         for (k, vals) in opts.iter() {
             if self.t.coin() {
-                args.push((k.to_string(), vals[self.t.pick(vals.len())].to_string()));
+                let mut v = vals[self.t.pick(vals.len())];
+                if self.cfg.fmt_no_zoned_time && *k == "time_length" && (v == "full" || v == "long") {
+                    v = if v == "full" { "medium" } else { "short" };
+                }
+                args.push((k.to_string(), v.to_string()));
             }
         }
         let mut text = String::new();
@@ -403,7 +412,7 @@ impl<'t> Gen<'t> {
         let nb = self.t.range(0, 4);
         // one declaration in three never shows its count (its arms then capture other members only)
         let hide = (self.t.pick(100) as u32) < self.cfg.p_hide_count;
-        let mut branches = vec![];
+        let mut branches: Vec<Branch> = vec![];
         let mut near = None;
         for _ in 0..nb {
             let ns = self.t.weighted(&[5, 2, 1]) + 1;
@@ -418,7 +427,12 @@ impl<'t> Gen<'t> {
                 });
                 specs.push(s);
             }
-            let body = self.range_body(tag, rich_bodies, hide);
+            let mut body = self.range_body(tag, rich_bodies, hide);
+            // one branch in five repeats the value of an earlier branch (equal arms must not be merged or reordered)
+            if !branches.is_empty() && self.t.chance(1, 5) {
+                let i = self.t.pick(branches.len());
+                body = branches[i].body.clone();
+            }
             branches.push(Branch {
                 specs,
                 body,
@@ -428,7 +442,11 @@ impl<'t> Gen<'t> {
             });
         }
         // fallback: always for floats; for ints always too (a non-exhaustive match does not compile)
-        let body = self.range_body(tag, rich_bodies, hide);
+        let mut body = self.range_body(tag, rich_bodies, hide);
+        if !branches.is_empty() && self.t.chance(1, 5) {
+            let i = self.t.pick(branches.len());
+            body = branches[i].body.clone();
+        }
         branches.push(Branch {
             specs: vec![],
             body,
@@ -491,7 +509,12 @@ impl<'t> Gen<'t> {
             // a single `_other` key is not a plural: need at least one more form
             forms.push((Form::One, self.range_body(tag, rich, hide)));
         }
-        forms.push((Form::Other, self.range_body(tag, rich, hide)));
+        let mut other = self.range_body(tag, rich, hide);
+        if self.t.chance(1, 5) {
+            let i = self.t.pick(forms.len());
+            other = forms[i].1.clone();
+        }
+        forms.push((Form::Other, other));
         let perm = self.t.permutation(forms.len());
         let forms = perm.into_iter().map(|i| forms[i].clone()).collect();
         PluralDecl { ordinal, forms }
